@@ -64,8 +64,52 @@ class RegWorld:
         self.model = {}    # frozenset(typed ids) -> record
         self.order = []    # creation order of keys
 
+    NOISE = ["migrate_pair", "migrate_pair", "update_config_code", "owner_direct_update", "stranger_direct_update",
+             "padded_denom", "migrate_factory"]
+
+    def admin_noise(self, rng, acc, kind=None):
+        """administrative actions (and attempts) after which every registry record must still equal what was created / last
+        registered and what the pair reports about itself. Returns (kind, response, padded denom registered or None)."""
+        kind = kind or rng.choice(self.NOISE)
+        recs = list(self.model.values())
+        padded = None
+        if kind in ("migrate_pair", "owner_direct_update", "stranger_direct_update") and not recs:
+            kind = "update_config_code"
+        if kind == "migrate_pair":
+            rec = rng.choice(recs)
+            r = self.x("owner", self.factory, {"migrate_pair": {"contract": rec["addr"],
+                                                                "code_id": rng.choice([None, self.codes["pair2"], self.codes["pair"]])}})
+        elif kind == "update_config_code":
+            # pairs created from now on use the other (identical) pair code id; existing pairs stay what they are
+            r = self.x("owner", self.factory, {"update_config": {"owner": None, "token_code_id": None,
+                                                                 "pair_code_id": rng.choice([self.codes["pair2"], self.codes["pair"]])}})
+        elif kind in ("owner_direct_update", "stranger_direct_update"):
+            # the factory-to-pair message sent to a pair directly, by the factory's owner / by anybody
+            rec = rng.choice(recs)
+            nat = [a[1] for a in rec["assets"] if a[0] == "n"] or [rng.choice(self.denoms)]
+            r = self.x("owner" if kind == "owner_direct_update" else "mallory", rec["addr"],
+                       {"update_native_token_decimals": {"denom": rng.choice(nat), "asset_decimals": [rng.randrange(0, 19), rng.randrange(0, 19)]}})
+        elif kind == "padded_denom":
+            # a denom with blanks around it is ANOTHER string: registering it says nothing about the denom without blanks
+            d = rng.choice(sorted(self.reg))
+            padded = rng.choice([d + " ", " " + d, d + "\n", "\t" + d, " " + d + " "])
+            dec = rng.choice([x for x in (0, 3, 6, 9, 18) if x != self.reg[d]])
+            r = self.x("owner", self.factory, {"add_native_token_decimals": {"denom": padded, "decimals": dec}})
+            if r["r"] == "ok":
+                self.reg[padded] = dec
+            else:
+                padded = None
+        else:
+            # the factory's wasm admin migrates the factory itself (same code): nothing registered may get lost
+            r = self.srv.send({"op": "migrate", "sender": "owner", "contract": self.factory, "code": "factory", "msg": "{}"})
+        acc.ev()
+        acc.cls("admin_noise", kind, r["r"])
+        acc.count("admin_noise_" + kind + "_" + r["r"])
+        return kind, r, padded
+
     def _inst(self, code, msg):
-        r = self.srv.send({"op": "inst", "code": code, "sender": "owner", "msg": json.dumps(msg), "label": code, "admin": None})
+        r = self.srv.send({"op": "inst", "code": code, "sender": "owner", "msg": json.dumps(msg), "label": code,
+                           "admin": "owner" if code == "factory" else None})
         if r["r"] != "ok":
             raise HarnessFault("instantiate failed: %r" % (r,))
         for e in r["v"]["events"]:
